@@ -28,7 +28,7 @@ TS = c02.TS
 SCOPE = c02.SCOPE
 AKID = c02.AKID
 
-CASES = ['authz-header', 'cred-in-header', 'sig-in-header', 'signedheaders-in-header', 'q-credential', 'q-signature', 'q-date', 'q-signedheaders',
+CASES = ['authz-header', 'authz-foreign', 'authz-basic', 'cred-in-header', 'sig-in-header', 'signedheaders-in-header', 'q-credential', 'q-signature', 'q-date', 'q-signedheaders',
          'q-token', 'fold-signature', 'fold-credential', 'x-amz-date-twice', 'x-amz-date-vs-date', 'date-twice', 'token-header', 'both-carriers']
 
 
@@ -91,7 +91,7 @@ def run_shape(prog, shape, tier, seed, res):
         tok = conc_bytes('TOK')
         first = lambda a, b: (a, b) if want_ok else (b, a)      # (selected-by-"first" rule, other)
         last = lambda a, b: (b, a) if want_ok else (a, b)       # order on the wire when the LAST one is selected
-        if case in ('authz-header', 'cred-in-header', 'sig-in-header', 'signedheaders-in-header', 'x-amz-date-twice', 'x-amz-date-vs-date',
+        if case in ('authz-header', 'authz-foreign', 'authz-basic', 'cred-in-header', 'sig-in-header', 'signedheaders-in-header', 'x-amz-date-twice', 'x-amz-date-vs-date',
                     'date-twice', 'token-header', 'both-carriers'):
             # ---- header carrier
             date_headers = [('x-amz-date', conc_bytes(TS))]
@@ -129,6 +129,16 @@ def run_shape(prog, shape, tier, seed, res):
             if case == 'authz-header':
                 dec = decoy_like(ctx, sig, 'ds', 'hex')
                 bad = auth_header(cred, signed, dec)
+                a, b = first(good, bad)
+                headers += [('authorization', a), ('authorization', b)]
+            elif case == 'authz-foreign':
+                # the other Authorization header is the valid one under a different algorithm token: position decides, not content
+                alg = decoy_like(ctx, conc_bytes('AWS4-HMAC-SHA256'), 'fa')
+                bad = alg + good[16:]
+                a, b = first(good, bad)
+                headers += [('authorization', a), ('authorization', b)]
+            elif case == 'authz-basic':
+                bad = conc_bytes('Basic ') + decoy_like(ctx, conc_bytes('dXNlcg'), 'fb', 'alnum')
                 a, b = first(good, bad)
                 headers += [('authorization', a), ('authorization', b)]
             elif case == 'cred-in-header':
@@ -352,6 +362,12 @@ def concrete_case(case, order, rnd):
         sh = ';'.join(signed)
         if case == 'authz-header':
             a, b = first(mk(cred, sh, sig), mk(cred, sh, dsig))
+            headers += [['authorization', a.encode().hex()], ['authorization', b.encode().hex()]]
+        elif case == 'authz-foreign':
+            a, b = first(mk(cred, sh, sig), mk(cred, sh, sig).replace('AWS4-HMAC-SHA256', 'aws4-hmac-sha256'))
+            headers += [['authorization', a.encode().hex()], ['authorization', b.encode().hex()]]
+        elif case == 'authz-basic':
+            a, b = first(mk(cred, sh, sig), 'Basic dXNlcg')
             headers += [['authorization', a.encode().hex()], ['authorization', b.encode().hex()]]
         elif case == 'cred-in-header':
             w1, w2 = last(cred, 'ZZZZEXAMPLE' + '/' + SCOPE)
